@@ -42,7 +42,8 @@ EffectOK(r) ==
             PD!FrameOK(B(r), A(r)) \/ PD!DeleteOneOK(B(r), A(r), r.idcp)
       [] k = "json" -> PD!JsonOK(B(r), A(r), "in", FALSE)
       [] k = "jsonout" -> PD!JsonOK(B(r), A(r), "out", FALSE)
-      [] k = "jsonclean" -> PD!JsonOK(B(r), A(r), "out", TRUE)
+      [] k \in {"jsonclean", "jsoncleanext"} -> PD!JsonOK(B(r), A(r), "out", TRUE)
+      [] k = "jsonext" -> PD!JsonOK(B(r), A(r), "in", FALSE)
       [] k = "fileclean" -> PD!FileOK(B(r), A(r), TRUE, r.fpath)
       [] k = "multi" -> MultiOK(r)
       [] OTHER -> FALSE
